@@ -334,7 +334,7 @@ def nontrivial(case: dict[str, Any]) -> bool:
 
 
 def shards(tier: str) -> list[dict[str, Any]]:
-    return [{"n": 250 if tier == "quick" else 9000} for _ in range(16)]
+    return [{"n": 250 if tier == "quick" else 25000} for _ in range(16)]
 
 
 def run_shard(spec: dict[str, Any], seed: int) -> Collector:
